@@ -68,6 +68,8 @@ type Spec struct {
 	// sequences (seq.go): Timer.Stop comes too late for this request's timers - the runtime has already started the timer functions -
 	// so they run at their time although the request is over by then (emulated by making Stop a no-op on the armed timers)
 	KeepTimers bool            `json:"keep_timers,omitempty"`
+	// the request carries proxy_disable_retry = true (as the HTTP/2 server stream sets it for a streamed body)
+	DisableRetry bool          `json:"disable_retry,omitempty"`
 	// the upstream stream layer resets the current attempt's stream (reason ResetUpReason) right after the proxy has written the
 	// response headers ("hdr") / the response data ("data") downstream: a reset after the response to the client has started
 	ResetUpOn     string `json:"reset_up_on,omitempty"`
@@ -161,6 +163,9 @@ func buildRequest(h *hist, connCtx context.Context) (context.Context, api.Header
 	}
 	if sp.VarTryMs > 0 {
 		_ = variable.SetString(sctx, types.VarProxyTryTimeout, strconv.Itoa(sp.VarTryMs))
+	}
+	if sp.DisableRetry {
+		_ = variable.Set(sctx, types.VarProxyDisableRetry, true)
 	}
 	hm := map[string]string{"service": "svc"}
 	if sp.NoMatch {
